@@ -40,14 +40,6 @@ theorem collapseBackslashes_of_none (s : Str) (h : '\\' ∉ s) : collapseBacksla
       have ha : (a == '\\') = false := by simpa using fun e : a = '\\' => h (by simp [e])
       simp only [collapseBackslashes, ha, Bool.false_and, Bool.false_eq_true, if_false, ih (fun e => h (by simp [e]))]
 
-theorem replaceChar_of_none (a b : Char) (s : Str) (h : a ∉ s) : replaceChar a b s = s := by
-  induction s with
-  | nil => rfl
-  | cons x t ih =>
-    have hx : (x == a) = false := by simpa using fun e : x = a => h (by simp [e])
-    simp only [replaceChar, List.map_cons, hx, Bool.false_eq_true, if_false] at ih ⊢
-    rw [ih (fun e => h (by simp [e]))]
-
 /-- a file name the `[Events]` section can carry: without comma, line feed, backslash or `//`, and
 not starting or ending with a double quote. (Surrounding white space is preserved: the name is quoted.) -/
 structure RepFileName (n : Str) : Prop where
